@@ -32,8 +32,12 @@ CONSTANTS NMax,          \* graphs on 1..NMax nodes
           TS,            \* transmissibilities, sequence of <<a, b>> meaning a/b
           EmitOn         \* print input |-> expected output
 
-VARIABLES kind, n, w, dseq, phase
-vars == <<kind, n, w, dseq, phase>>
+VARIABLES kind,   \* "G": the input is the graph (n, w);  "D": the input is the degree sequence deg
+          n, w,   \* number of nodes and weight vector of the graph (kind "G")
+          deg,    \* the degree sequence of the input: derived from (n, w) in Init for kind "G"
+                  \* (DegDef below), the input itself for kind "D"; frozen
+          phase
+vars == <<kind, n, w, deg, phase>>
 
 -----------------------------------------------------------------------------
 (* Part 0: integer and rational helpers                                     *)
@@ -69,7 +73,8 @@ Nbr(u)    == {v \in 1..n : Adj(u, v)}
 Edges     == Cardinality({p \in 1..NP(n) : w[p] > 0})
 
 \* the degree sequence: number of neighbours (weights play no role)
-Deg == IF kind = "G" THEN [u \in 1..n |-> Cardinality(Nbr(u))] ELSE dseq
+GraphDeg == [u \in 1..n |-> Cardinality(Nbr(u))]
+Deg == deg
 NN  == Len(Deg)
 Kmx == SetMax({Deg[u] : u \in 1..NN})
 
@@ -161,6 +166,7 @@ NodeWise ==
           /\ (Kmx = 0) => PsiP(XS[i]) = <<0, 1>>
           /\ (Kmx <= 1) => PsiPP(XS[i]) = <<0, 1>>
 
+DegDef    == (kind = "G") => deg = GraphDeg
 Handshake == (kind = "G") => M1 = 2 * Edges
 
 \* rows of Pnk for k >= 1 sum to 1; pair counts are symmetric
@@ -192,7 +198,7 @@ DegSeqs == UNION {{s \in [1..m -> 0..KMax] : IsOrdered(s)} : m \in 1..DLen}
 Init == /\ kind \in {"G", "D"}
         /\ n \in (IF kind = "G" THEN 1..NMax ELSE {0})
         /\ w \in (IF kind = "G" THEN [1..NP(n) -> {0} \cup EW] ELSE {<< >>})
-        /\ dseq \in (IF kind = "G" THEN {<< >>} ELSE DegSeqs \cup ExtraDegSeqs)
+        /\ deg \in (IF kind = "G" THEN {GraphDeg} ELSE DegSeqs \cup ExtraDegSeqs)
         /\ phase = "in"
 
 Record ==
@@ -203,12 +209,12 @@ Record ==
 Evaluate == /\ phase = "in"
             /\ phase' = "out"
             /\ EmitOn => PrintT(Record)
-            /\ UNCHANGED <<kind, n, w, dseq>>
+            /\ UNCHANGED <<kind, n, w, deg>>
 
 Next == Evaluate
 Spec == Init /\ [][Next]_vars
 
-Identities == (phase = "in") =>
-                 /\ PkSumsToOne /\ PsiAtOne /\ PsiPrimeAtOne /\ PsiDPrimeAtOne
-                 /\ DerivCoeff /\ NodeWise /\ Handshake /\ PnkRows /\ R0Identities
+\* every identity, for configurations that want a single name
+Identities == /\ DegDef /\ PkSumsToOne /\ PsiAtOne /\ PsiPrimeAtOne /\ PsiDPrimeAtOne
+              /\ DerivCoeff /\ NodeWise /\ Handshake /\ PnkRows /\ R0Identities
 =============================================================================
